@@ -1024,6 +1024,12 @@ class Executor(object):
                     else:
                         out.append((s, _Raised("KeyError")))
                 return out
+        from .heap import DataV, dataval_f, dataval_nan_f
+        if isinstance(base, Opt) and isinstance(base.val, DataV):
+            st.oblige("%s/not-none" % self.cur_func[-1], Not(base.isnone), kind="side")
+            base = base.val
+        if isinstance(base, DataV) and isinstance(i, StrV):
+            return [(st, Num(dataval_f(base.term, i.term), dataval_nan_f(base.term, i.term), False))]
         if isinstance(base, TupleV) and isinstance(i, Num):
             k = z3.simplify(i.r)
             if z3.is_int_value(k):
